@@ -38,7 +38,10 @@ def movement_cases(draw, name):
     val = draw(st.sampled_from((st.integers(0, 3), st.integers(0, 3), st.integers(-5, 5), st.sampled_from((0.0, 0.25, 0.5, 1.0, 1.25)))))
     A = [None if draw(miss) else draw(val) for _ in range(n)]
     B = [None if draw(miss) else draw(val) for _ in range(n)]
-    return {"kind": "movement", "fn": name, "A": A, "B": B, "length": draw(st.integers(2 if name == "value_range" else 1, 8))}
+    src = draw(st.sampled_from(("reading", "reading", "reading", "volume")))
+    if src == "volume":  # the series is a candle field that is legitimately 0 on some candles
+        A = [draw(st.sampled_from((0, 0, 1, 2, 3))) for _ in range(n)]
+    return {"kind": "movement", "fn": name, "A": A, "B": B, "src": src, "length": draw(st.integers(2 if name == "value_range" else 1, 8))}
 
 
 def _run_movement(case):
@@ -46,8 +49,13 @@ def _run_movement(case):
     n = len(A)
     rows = [[None, 10.0, 11.0, 9.0, 10.0, 1] for _ in range(n)]
     cs = mk_candles(rows)
+    first = "A"
+    if case.get("src") == "volume":
+        first = "volume"
+        for c, a in zip(cs, A):
+            c.volume = a
     for c, a, b in zip(cs, A, B):
-        if a is not None:
+        if a is not None and first == "A":
             c.indicators["A"] = a
         if b is not None:
             c.indicators["B"] = b
@@ -57,11 +65,11 @@ def _run_movement(case):
     for i in range(1, n):
         try:
             if name in ("above", "below"):
-                got = f(cs, "A", "B", index=i)
+                got = f(cs, first, "B", index=i)
             elif name in ("crossover", "crossunder"):
-                got = f(cs, "A", "B", length=length, index=i)
+                got = f(cs, first, "B", length=length, index=i)
             else:
-                got = f(cs, "A", length=length, index=i)
+                got = f(cs, first, length=length, index=i)
         except Exception as exc:
             v = raises(exc, name)
             v.detail = f"index {i}: " + v.detail
